@@ -582,6 +582,12 @@ encodeResponse:
         *error = MATRIXSSL_ERROR;
         return rc;
     }
+    if (ssl->err != SSL_ALERT_NONE)
+    {
+        /* A fatal alert has been encoded: flag the session as error so
+           that it cannot be used anymore (as the TLS <=1.2 decoder does). */
+        ssl->flags |= SSL_FLAGS_ERROR;
+    }
     *len = tmp.end - tmp.start;
     *remaining = 0;
     /* Advance pointer to point to after the data we have read. */
